@@ -81,7 +81,21 @@ def guarded_site(rep, rid, ctx, inst, named_pats, env=None, function=None):
     for name, pat in named_pats:
         f, e = M.find_fact(pat, fs, env)
         iname = "%s: %s guarded by %s" % (inst.src_fn(), _short(inst), name)
-        if f is not None:
+        if f is None and env is None:
+            # not an available fact on every path as such - but it may hold on every *feasible* path: a helper's status that comes back
+            # through a flag (`ok = 0` on one exit of the helper, `ok = callee() != NULL` on another, then `if (!ok) return`) is followed by
+            # the predicate path states, which keep the flag's value and the fact together
+            try:
+                from .paths import PathStates, holds
+                ps = PathStates(fn, F, {"g": pat}, correlate=True, cap=4096)
+                sts = ps.at_block(inst.block.id)
+                if sts and not ps.overflow and all(holds(s_, "g") for s_ in sts):
+                    f = ("path-states", name, len(sts))
+            except Exception:
+                f = None
+        if f is not None and f[0] == "path-states":
+            rep.ok(rid, iname, "holds in all %d path states at the site" % f[2], inst.where())
+        elif f is not None:
             rep.ok(rid, iname, describe_fact(fn, f), inst.where())
         else:
             ok = False
